@@ -695,7 +695,14 @@ func (e *Ev) applyContract(x ast.Node, con *Contract, fn *types.Func, recv Val, 
 		calleePkg = fn.Pkg()
 	}
 	preSt := e.st.clone()
-	preEv := &Ev{fx: fx, st: preSt, contract: true, pkg: calleePkg, lookup: func(n string) (Val, bool) { v, ok := pre[n]; return v, ok }}
+	preEv := &Ev{fx: fx, st: preSt, contract: true, pkg: calleePkg, lookup: func(n string) (Val, bool) {
+		if v, ok := pre[n]; ok {
+			return v, true
+		}
+		// a result named inside old(...) is the result itself (requires clauses never name results)
+		v, ok := post[n]
+		return v, ok
+	}}
 	for i, rq := range con.Requires {
 		lbl := rq.Label
 		if lbl == "" {
